@@ -131,7 +131,12 @@ func (p *c22IdP) RoundTrip(req *http.Request) (*http.Response, error) {
 	if slow {
 		select {
 		case <-time.After(15 * time.Second):
+			sim.Yield("net-resume")
 		case <-req.Context().Done():
+			// (after real blocking a task passes the scheduler before it does anything observable: two clients
+			// whose fetches time out at the same fake instant would otherwise continue in an order the Go
+			// runtime picks — found by the determinism self-test of a thorough sweep)
+			sim.Yield("net-resume")
 			p.mu.Lock()
 			p.failed++
 			p.mu.Unlock()
